@@ -1,4 +1,5 @@
 """Shared Hypothesis strategies: typed values, colliding names, tables, packages."""
+import copy
 import datetime
 import decimal
 import string
@@ -186,6 +187,8 @@ def descriptor_of(resources):
     for r, rd in zip(resources, d['resources']):
         if r.get('path'):
             rd['path'] = r['path']
+        # resource-level properties the resource 'arrives with' (e.g. the encoding / format of the file it was loaded from)
+        rd.update(copy.deepcopy(r.get('res_extra') or {}))
     return d
 
 
